@@ -242,3 +242,38 @@ def blocks_reachable_from(f, b, include_start=False):
 def fn_key(fid):
     """function id without crate prefix noise for keys"""
     return fid
+
+
+CACHE_IMPL = "tauri_typegen::build::generation_cache::GenerationCache::"
+
+
+def is_cache_check(c):
+    """call of GenerationCache::needs_regeneration* (any variant)"""
+    for p in (c.resolved, c.path):
+        if p and strip_generics(p).startswith(CACHE_IMPL + "needs_regeneration"):
+            return True
+    return False
+
+
+def is_cache_new(c):
+    for p in (c.resolved, c.path):
+        if p and re.match(re.escape(CACHE_IMPL) + r"new(_\w+)?$", strip_generics(p)):
+            return True
+    return False
+
+
+def arg_by_type(c, pattern):
+    """operand of call c whose static type matches `pattern` (regex), else None"""
+    tys = c.term.get("arg_tys", [])
+    for a, t in zip(c.args, tys):
+        if re.search(pattern, t):
+            return a
+    return None
+
+
+ARG_TYPES = {
+    "commands": r"^&\[tauri_typegen::(models::)?CommandInfo\]$",
+    "structs": r"^&std::collections::HashMap<std::string::String, tauri_typegen::(models::)?StructInfo>$",
+    "config": r"^&tauri_typegen::(interface::config::)?GenerateConfig$",
+    "events": r"^&\[tauri_typegen::(models::)?EventInfo\]$",
+}
